@@ -301,6 +301,25 @@ func (e *Engine) newRef(st *State, hint string) *Term {
 	return r
 }
 
+// allocSubObjects marks the embedded aggregate fields of a newly allocated object as newly
+// allocated too (their addresses sub!key(ref) are part of the same allocation).
+func (e *Engine) allocSubObjects(st *State, t types.Type, ref *Term) {
+	u, ok := t.Underlying().(*types.Struct)
+	if !ok || e.inInit {
+		return
+	}
+	for i := 0; i < u.NumFields(); i++ {
+		key, f := fieldKey(t, i)
+		if !isAggregate(f.Type()) || f.Name() == "_" {
+			continue
+		}
+		s := subRef(key, ref)
+		st.Assume(And(Ne(s, BVU(0, 64)), Not(Select(st.Alloc, s))))
+		st.Alloc = Store(st.Alloc, s, True)
+		e.allocSubObjects(st, f.Type(), s)
+	}
+}
+
 // ---------------------------------------------------------------------------------------------
 // memory access through pointers
 
@@ -986,6 +1005,7 @@ func (e *Engine) execInstr(p *Path, fr *Frame, in ssa.Instruction, onExit exitFn
 		t := in.Type().Underlying().(*types.Pointer).Elem()
 		if isAggregate(t) {
 			r := e.newRef(st, in.Comment)
+			e.allocSubObjects(st, t, r)
 			st.StoreObject(t, r, zeroOf(t))
 			fr.env[in] = r
 		} else {
